@@ -38,8 +38,8 @@ func StripDomain(data []byte, domain string) (res []byte) {
 		if c := data[0]; c == '.' {
 			// Skip dots in the name
 			data = data[1:]
-		} else if c != '\\' {
-			// Add escaped char as-is
+		} else if c != '\\' || len(data) == 1 {
+			// Add escaped char as-is (a backslash that ends the data escapes nothing)
 			res = append(res, c)
 			data = data[1:]
 		} else if Digits.MatchString(string(data[1:])) {
